@@ -60,12 +60,23 @@ structure Cfg where
   mpRaw : Bool := false
   /-- `MessagePackDocument(use_bin_type=…)`; together with `raw` it selects the leaf handler table (`from_serstr`) -/
   mpBinType : Bool := true
+  /-- the classes that are declared with `not_wrapped=True` wherever they are used (`Cls.customize(not_wrapped=True)`): their
+      objects travel without the `{ClassName: …}` wrapper also when wrappers are kept. (An interface-level fact carried with
+      the configuration: the shared `Ty` has no place for it.) -/
+  notWrapped : List Text := []
+  /-- the classes declared with `validate_freq=False` (`Cls.novalidate_freq()`, `customize(validate_freq=False)`, the implicit
+      `self` of `@mrpc` methods): `_doc_to_object` skips `_check_freq_dict` (min_occurs / max_occurs) for their own members
+      under soft validation — and nothing else -/
+  noFreq : List Text := []
   deriving Repr, DecidableEq, Inhabited
 
 def Proto.isMsgpack : Proto → Bool
   | .msgpack => true | .msgpackRpc => true | _ => false
 
 def Cfg.soft (c : Cfg) : Bool := c.validator = .soft
+
+/-- objects of class `name` are read / written without a wrapper: `self.ignore_wrappers or cls_attrs.not_wrapped` -/
+def Cfg.unwrapped (c : Cfg) (name : Text) : Bool := c.ignoreWrappers || c.notWrapped.contains name
 
 /-- how `_doc_to_object` counts occurrences for `_check_freq_dict` -/
 inductive OccCount where
@@ -145,6 +156,24 @@ structure Facts02 where
       The list can hold unrelated classes: a model whose `Attributes` class derives from another model's `Attributes` inherits
       that model's list. In the model `resolveClass` only ever selects registered descendants of the declared class. -/
   retagSubclassChecked : Bool
+  /-- `_complex_to_dict`, the branch for protocols with `str` keys (`key_encoding is None`: json, yaml): a `not_wrapped` class
+      is written without its wrapper when wrappers are kept (good) -/
+  notWrappedStrKeys : Bool
+  /-- the same for the branch with encoded keys (`key_encoding = 'utf8'`: MessagePackDocument, MessagePackRpc) -/
+  notWrappedBytesKeys : Bool
+  /-- Double / Decimal are outside the shared `PrimTy`. Measured table (T1, `number_kind_runs`): every `protocol:type:kind` for
+      which, under soft validation, a native document node that is no number (YAML timestamp / set / binary, MessagePack ext /
+      timestamp / bin / array / map) reaches user code where plain or customized Double / Decimal is declared, as argument or
+      as nested member — or makes an exception escape. Good = none. -/
+  nonNumberForNumber : List String
+  /-- for a class with `validate_freq=False`, soft validation still applies the kind and facet checks to every member (also in
+      nested objects) and only skips the occurrence check of that class (good); otherwise the whole subtree is read without a
+      validator -/
+  noFreqKeepsValidation : Bool
+  /-- the `values` check of `SimpleModel.validate_native` lets exactly `None` through for a nillable type (`value is None`), not
+      every falsy value (good): `''`, `0`, `0.0`, `False` have to be members of the enumeration like any other value. (The shared
+      `validateNative` is only ever applied to non-null values, i.e. it models the `is None` test.) -/
+  valuesNullTestIsNone : Bool
   deriving Repr
 
 /-- the switches the round trip of conformant values depends on -/
